@@ -103,26 +103,26 @@ fn check_line_like(acc: &mut Acc, idx: usize, v: &[IP], what: &str) {
         }
         // the same line at the exact scales 2^-30 and 2^30 (every fourth case): interpolation and location must scale with it (no absolute thresholds)
         if idx % 4 == 0 && !v.is_empty() {
-            for sc in [1.0 / 1073741824.0, 1073741824.0] {
+            for sc in [1.0 / 1073741824.0, 1073741824.0, 1.0 / 1152921504606846976.0] {
                 let sl = LineString::new(v.iter().map(|&p| Coord { x: p.0 as f64 * sc, y: p.1 as f64 * sc }).collect());
                 let (ex, ey) = (exp.0 * sc, exp.1 * sc);
                 let near = |p: Point<f64>| (p.x() - ex).abs() <= tol * sc && (p.y() - ey).abs() <= tol * sc;
                 acc.evals += 3;
                 match guard(|| (sl.point_at_ratio_from_start(&Euclidean, r), sl.point_at_distance_from_end(&Euclidean, (1.0 - r) * l * sc))) {
                     Ok((Some(p), Some(q))) if near(p) && near(q) => {}
-                    other => acc.viol(format!("{} interpolation does not scale with the line (scale 2^{})", what, if sc < 1.0 { -30 } else { 30 }), idx, || w(format!("{:?}", other), "scaled point_at_ratio_from_start / point_at_distance_from_end")),
+                    other => acc.viol(format!("{} interpolation does not scale with the line (scale 2^{})", what, sc.log2() as i32), idx, || w(format!("{:?}", other), "scaled point_at_ratio_from_start / point_at_distance_from_end")),
                 }
                 if simple && l > 0.0 {
                     let p = Point::new(ex, ey);
                     match guard(|| sl.line_locate_point(&p)) {
                         Ok(Some(f)) if (f - rc).abs() <= 1e-9 => {}
-                        other => acc.viol(format!("line_locate_point does not map the interpolated point back to its ratio at scale 2^{} (simple line)", if sc < 1.0 { -30 } else { 30 }), idx, || w(format!("{:?}", other), "scaled line_locate_point")),
+                        other => acc.viol(format!("line_locate_point does not map the interpolated point back to its ratio at scale 2^{} (simple line)", sc.log2() as i32), idx, || w(format!("{:?}", other), "scaled line_locate_point")),
                     }
                     if v.len() == 2 {
                         let ln = Line::new(sl.0[0], sl.0[1]);
                         match guard(|| ln.line_locate_point(&p)) {
                             Ok(Some(f)) if (f - rc).abs() <= 1e-9 => {}
-                            other => acc.viol(format!("Line::line_locate_point does not map the interpolated point back to its ratio at scale 2^{}", if sc < 1.0 { -30 } else { 30 }), idx, || w(format!("{:?}", other), "scaled Line::line_locate_point")),
+                            other => acc.viol(format!("Line::line_locate_point does not map the interpolated point back to its ratio at scale 2^{}", sc.log2() as i32), idx, || w(format!("{:?}", other), "scaled Line::line_locate_point")),
                         }
                     }
                 }
